@@ -23,7 +23,7 @@ def dLegacy : Sexp → Option (Option (List Param))
     (ps.mapM fun (p : Sexp) => match p with
       | Sexp.atom "i" => some Param.ignore | Sexp.atom "f" => some Param.forward
       | Sexp.atom "o" => some Param.owned | Sexp.atom "r" => some Param.ref
-      | Sexp.atom "m" => some Param.refMut | _ => none).map some
+      | Sexp.atom "m" => some Param.refMut | Sexp.atom "n" => some Param.notForward | _ => none).map some
   | _ => none
 
 def dTys (l : List Sexp) : Option (List (String × Bool)) :=
